@@ -459,7 +459,7 @@ def tRegion : Pc → Bool
   | _ => false
 
 /-- how a thread gets into / moves inside `_stop_enqueue`, and how a producer ends -/
-def EndStep (s : Shared) (t : Thread) (tid : Tid) (alt : Bool) : Prop :=
+def OutStep (s : Shared) (t : Thread) (tid : Tid) (alt : Bool) : Prop :=
   ∀ lbl s' t', stepThread s t tid alt = some (lbl, s', t') →
     (tRegion t'.pc = true →
       (tRegion t.pc = true ∧ t'.reraise = t.reraise) ∨ t.pc = .eNext ∨ (t.pc = .pRaiseT ∧ t'.reraise.isSome = true)) ∧
@@ -471,7 +471,7 @@ def EndStep (s : Shared) (t : Thread) (tid : Tid) (alt : Bool) : Prop :=
     (pcKind t.pc = some .stopper → ∀ r, t'.outcome = some (.stop r) → t.outcome = some (.stop r))
 
 set_option hygiene false in
-macro "end_group" : tactic => `(tactic| (
+macro "out_group" : tactic => `(tactic| (
   intro lbl s' t' h
   unfold stepThread at h
   cases hpc : t.pc <;> (try (simp only [hpc, Pc.group] at hg; omega)) <;>
@@ -483,20 +483,20 @@ macro "end_group" : tactic => `(tactic| (
     (try (obtain ⟨-, rfl, rfl⟩ := h)) <;>
     simp_all [pcKind, tRegion, Shared.setOwner]))
 
-theorem end_g0 {s t tid alt} (hg : t.pc.group = 0) : EndStep s t tid alt := by end_group
-theorem end_g1 {s t tid alt} (hg : t.pc.group = 1) : EndStep s t tid alt := by end_group
-theorem end_g2 {s t tid alt} (hg : t.pc.group = 2) : EndStep s t tid alt := by end_group
-theorem end_g3 {s t tid alt} (hg : t.pc.group = 3) : EndStep s t tid alt := by end_group
-theorem end_g4 {s t tid alt} (hg : t.pc.group = 4) : EndStep s t tid alt := by end_group
-theorem end_g5 {s t tid alt} (hg : t.pc.group = 5) : EndStep s t tid alt := by end_group
-theorem end_g6 {s t tid alt} (hg : t.pc.group = 6) : EndStep s t tid alt := by end_group
-theorem end_g7 {s t tid alt} (hg : t.pc.group = 7) : EndStep s t tid alt := by end_group
+theorem out_g0 {s t tid alt} (hg : t.pc.group = 0) : OutStep s t tid alt := by out_group
+theorem out_g1 {s t tid alt} (hg : t.pc.group = 1) : OutStep s t tid alt := by out_group
+theorem out_g2 {s t tid alt} (hg : t.pc.group = 2) : OutStep s t tid alt := by out_group
+theorem out_g3 {s t tid alt} (hg : t.pc.group = 3) : OutStep s t tid alt := by out_group
+theorem out_g4 {s t tid alt} (hg : t.pc.group = 4) : OutStep s t tid alt := by out_group
+theorem out_g5 {s t tid alt} (hg : t.pc.group = 5) : OutStep s t tid alt := by out_group
+theorem out_g6 {s t tid alt} (hg : t.pc.group = 6) : OutStep s t tid alt := by out_group
+theorem out_g7 {s t tid alt} (hg : t.pc.group = 7) : OutStep s t tid alt := by out_group
 
-theorem stepThread_end {s t tid alt} : EndStep s t tid alt := by
+theorem stepThread_out {s t tid alt} : OutStep s t tid alt := by
   have h := Pc.group_lt t.pc
   match hg : t.pc.group with
-  | 0 => exact end_g0 hg | 1 => exact end_g1 hg | 2 => exact end_g2 hg | 3 => exact end_g3 hg
-  | 4 => exact end_g4 hg | 5 => exact end_g5 hg | 6 => exact end_g6 hg | 7 => exact end_g7 hg
+  | 0 => exact out_g0 hg | 1 => exact out_g1 hg | 2 => exact out_g2 hg | 3 => exact out_g3 hg
+  | 4 => exact out_g4 hg | 5 => exact out_g5 hg | 6 => exact out_g6 hg | 7 => exact out_g7 hg
   | n + 8 => omega
 
 /-- the ghost list `returned` is not read by `Live` -/
